@@ -12,6 +12,9 @@ def run(chk):
     from checks import main_wiring as _mw
     _mw.run(chk, [chk.pid])
     _lean.check_theorems(chk, "Poupool.Properties.Compose", COMPOSE)
+    # the per-actor model of the PWM treats util.Timer / PController as pure helpers: their statement shape is checked
+    from checks import pwm_common as _pc
+    _pc.regenerate(chk)
     # the chain Filtration -> Disinfection -> PWM in ONE composed system (both pair theorems apply to the same state)
     _lean.check_theorems(chk, "Poupool.Properties.Compose3", ["Poupool.Compose3Props." + t for t in ("chain_halt_ph", "chain_halt_cl", "chain_no_treatment_ph", "chain_no_treatment_cl", "chain_off_when_served_ph", "chain_off_when_served_cl", "chain_hypotheses_needed_ph", "chain_hypotheses_needed_cl", "chainPh_demo_halt", "chainPh_demo_wash", "chainCl_demo_halt", "chainCl_demo_wash")])
 
